@@ -130,6 +130,10 @@ impl RecvHandle for Receiver {
             tracing::trace!("trying to read from transport");
             let len = self.read.read_buf(&mut self.buf).await?;
             tracing::trace!("read {len} bytes. buffer length is {}", self.buf.len());
+            if len == 0 {
+                tracing::debug!("transport closed by peer");
+                break Err(io::Error::from(io::ErrorKind::UnexpectedEof).into());
+            }
         }
     }
 }
